@@ -14,6 +14,7 @@ import (
 	"bytes"
 	"context"
 	"encoding/json"
+	"errors"
 	"fmt"
 	"math/big"
 	"reflect"
@@ -787,6 +788,13 @@ func c19Live(c *vh.Case) {
 		json.Unmarshal(req.Params.Arguments, &a)
 		return &mcp.CallToolResult{Content: []mcp.Content{&mcp.TextContent{Text: a.Text}, &mcp.ImageContent{}, &mcp.EmbeddedResource{Resource: &mcp.ResourceContents{URI: "file:///e", Text: a.Text}}}}, nil
 	})
+	// a handler that reports progress on its request and then fails with a protocol error carrying data
+	server.AddTool(&mcp.Tool{Name: "fail-after-progress", InputSchema: json.RawMessage(`{"type":"object"}`)}, func(ctx context.Context, req *mcp.CallToolRequest) (*mcp.CallToolResult, error) {
+		if tok := req.Params.GetProgressToken(); tok != nil {
+			req.Session.NotifyProgress(ctx, &mcp.ProgressNotificationParams{ProgressToken: tok, Progress: 1, Message: "working"})
+		}
+		return nil, &jsonrpc.Error{Code: -32602, Message: "bad thing <&>", Data: json.RawMessage(`{"k":[1,"é"]}`)}
+	})
 	server.AddTool(&mcp.Tool{Name: "nil", InputSchema: json.RawMessage(`{"type":"object"}`)}, func(context.Context, *mcp.CallToolRequest) (*mcp.CallToolResult, error) {
 		return &mcp.CallToolResult{}, nil
 	})
@@ -940,6 +948,22 @@ func c19Live(c *vh.Case) {
 		for _, e := range errs {
 			if e != "" {
 				c.Violate("concurrent-frames-corrupted", "%s, %d concurrent calls with %d-byte texts: %s", kind, n, size, e)
+				break
+			}
+		}
+	}
+	if !c.Violated() {
+		// an error response keeps its code, message and data on every transport, also when the request's
+		// stream has carried a notification before it
+		for _, withProgress := range []bool{false, true} {
+			p := &mcp.CallToolParams{Name: "fail-after-progress", Arguments: map[string]any{}}
+			if withProgress {
+				p.Meta = mcp.Meta{"progressToken": "pt-1"}
+			}
+			_, err := cs.CallTool(ctx, p)
+			var je *jsonrpc.Error
+			if !errors.As(err, &je) || je.Code != -32602 || !strings.Contains(je.Message, "bad thing <&>") || !jsonEqual(je.Data, []byte(`{"k":[1,"é"]}`)) {
+				c.Violate("error-response-altered", "%s (negotiated %s): a handler failed with code -32602, message \"bad thing <&>\" and data {\"k\":[1,\"é\"]} (after a progress notification on its request: %v); the caller got %v", kind, cs.InitializeResult().ProtocolVersion, withProgress, err)
 				break
 			}
 		}
